@@ -5,7 +5,7 @@
    with the Gallina model, for which "never Panic, never out of fuel" is
    proved in Properties/C16.v. *)
 From Coq Require Import List NArith ZArith Bool.
-From Dials Require Import Base.Outcome Base.Runes Text.CaseConv Text.Quote Text.Split.
+From Dials Require Import Base.Outcome Base.Runes Text.CaseConv Text.Quote Text.Split Text.CasePipeline.
 From Dials Require Export Text.ParseInt Text.ParseString.
 From Dials Require Import Check.C15Check.
 Import ListNotations.
@@ -16,6 +16,8 @@ Inductive c16case :=
 | Str (pr : list rune) (t : ty) (s : str) (impl : outcome pval)      (* parse.String(s, t) *)
 | IntSl (signed : bool) (w : N) (s : str) (impl : outcome (list Z))  (* integral slice parsers *)
 | Unq (s : str) (impl : outcome str)                                 (* strconv.Unquote on double/back-quoted text *)
+| Enc (e : N) (ws : words) (impl : outcome str)                      (* the 6 encoders on arbitrary ASCII word lists *)
+| Pipe (d1 e d2 : N) (s : str) (impl : outcome words)                (* decode, encode, decode; ASCII input *)
 | Fuzz (impl_class : N).                                             (* byte-level exploration: 0 returned, 1 panicked/hung *)
 
 Definition decode (d : N) : str -> outcome words :=
@@ -55,6 +57,19 @@ Definition check (c : c16case) : N :=
                   else if out_eqb str_eqb impl model then 0 else 1
         | _ => if out_eqb str_eqb impl model then 0 else 1
         end
+  | Enc e ws impl =>
+      if is_panic impl then 3
+      else if (e <=? 1) && negb (forallb title_safe ws) then 0     (* x/text titling beyond the model: class only *)
+      else if out_eqb str_eqb impl (Ok (encode_by e ws)) then 0 else 1
+  | Pipe d1 e d2 s impl =>
+      if is_panic impl then 3
+      else
+        let comparable := match decode_by d1 s with
+                          | Ok ws => negb (e <=? 1) || forallb title_safe ws
+                          | _ => true
+                          end in
+        if negb comparable then 0
+        else if out_eqb strs_eqb impl (pipeline d1 e d2 s) then 0 else 1
   | Fuzz k => if k =? 0 then 0 else 3
   end.
 
